@@ -241,7 +241,11 @@ func cmp3(a, b float64) string {
 }
 
 // c05Strata enumerates every keyword pattern on required/optional/nullable/definition positions, integer and number.
-func c05Strata(ctx *Ctx) []*sem.Case {
+func c05Strata(ctx *Ctx) []*sem.Case { return numericStrata(ctx, "C05", false, nil) }
+
+// numericStrata enumerates every bound-keyword pattern x {integer, number} on required/optional/nullable/definition
+// positions; fracInt also puts fractional constants on integers (recorded finding int-bound-trunc territory).
+func numericStrata(ctx *Ctx, salt string, fracInt bool, args []string) []*sem.Case {
 	var out []*sem.Case
 	exKinds := []string{"none", "true", "false", "num"}
 	i := 0
@@ -251,12 +255,12 @@ func c05Strata(ctx *Ctx) []*sem.Case {
 				for _, ek := range exKinds {
 					for _, xk := range exKinds {
 						i++
-						r := sg.NewRng(ctx.Seed, fmt.Sprintf("C05-strata-%d", i))
+						r := sg.NewRng(ctx.Seed, fmt.Sprintf("%s-strata-%d", salt, i))
 						mk := func() *sg.Schema {
 							s := &sg.Schema{Types: []string{typ}}
 							lo := sg.PickOf(r, []float64{-10, -3, 0, 1, 2})
 							hi := lo + sg.PickOf(r, []float64{1, 2, 5, 10})
-							if typ == "number" && r.Chance(0.5) {
+							if (typ == "number" || fracInt) && r.Chance(0.5) {
 								lo += 0.5
 								hi += 0.25
 							}
@@ -310,7 +314,7 @@ func c05Strata(ctx *Ctx) []*sem.Case {
 							},
 							Required: []string{"req", "nulreq"},
 							Defs:     []sg.Prop{{Name: "Num", S: def}}}
-						out = append(out, &sem.Case{Root: root, Sig: fmt.Sprintf("strata:%s min=%v max=%v exmin=%s exmax=%s", typ, hasMin, hasMax, ek, xk)})
+						out = append(out, &sem.Case{Root: root, Args: args, Sig: fmt.Sprintf("strata:%s min=%v max=%v exmin=%s exmax=%s", typ, hasMin, hasMax, ek, xk)})
 					}
 				}
 			}
